@@ -2,12 +2,14 @@ module verifharness
 
 go 1.18
 
-require github.com/samsarahq/thunder v0.0.0
+require (
+	github.com/gorilla/websocket v1.0.1-0.20161018003955-8003df83eef3
+	github.com/samsarahq/thunder v0.0.0
+)
 
 require (
 	github.com/gogo/protobuf v1.1.2-0.20180914054005-e14cafb6a2c2 // indirect
 	github.com/golang/protobuf v1.4.2 // indirect
-	github.com/gorilla/websocket v1.0.1-0.20161018003955-8003df83eef3 // indirect
 	github.com/graphql-go/graphql v0.4.19-0.20160928141709-8c317402d1b7 // indirect
 	github.com/samsarahq/go v0.0.0-20181026175739-13570df44b46 // indirect
 	golang.org/x/net v0.0.0-20211216030914-fe4d6282115f // indirect
